@@ -1,7 +1,7 @@
 SPECIFICATION Spec19
 CONSTANT Types4 = {"qst", "povmt", "qpt"}
 CONSTANT StateSets = {"S4", "S6"}
-CONSTANT PovmSets = {"P3", "P33"}
+CONSTANT PovmSets = {"P3"}
 CONSTANT SchedVariants = {"all"}
 CONSTANT Ms = {2, 3}
 CONSTANT NLists = 3
